@@ -434,4 +434,8 @@ pub broadcast axiom fn dec_text_digits(n: nat)
 /// N10 wrapper for `std::cmp::min` on u8 (generic over Ord in std)
 #[verifier::external_body]
 pub fn vx_min_u8(a: u8, b: u8) -> (r: u8) ensures r == (if a <= b { a } else { b }) { std::cmp::min(a, b) }
+
+/// whole seconds of a duration (floor); uninterpreted
+pub uninterp spec fn dur_secs(d: std::time::Duration) -> u64;
+pub assume_specification [std::time::Duration::as_secs] (d: &std::time::Duration) -> (r: u64) ensures r == dur_secs(*d);
 }
